@@ -669,7 +669,13 @@ def r10_absent_value_beliefs(ctx, rep, R='C04.R10'):
                               % (fi.qualname, norm(val), pname, callee.qualname, pname, norm(val)),
                               key='absent:%s->%s:%s' % (fi.qualname, callee.qualname, pname),
                               func=callee.qualname, where=ctx.where(fi, c))
-    rep.floor(R, n, 1, 'falsy-constant-for-None-default call sites')
+    if n:
+        rep.ok(R, '%d call site(s) pass a falsy constant for a None-default parameter' % n)
+    else:
+        # a contradiction rule has nothing to say when no call site states the belief any more
+        # (the constant may travel through a local now): not a violation, not a broken anchor
+        rep.assume('%s: no call site passes a falsy non-None constant for a None-default parameter; '
+                   'nothing to compare' % R)
 
 
 # ---------------------------------------------------------------------------------------------
